@@ -6,10 +6,13 @@ EXTENDS Integers, Sequences, TLC, Json
 CONSTANTS MaxTrains
 VARIABLES stages, lockouts, trains
 
+\* lengths in 100 m. The dispatcher commits paths in 10-mile chunks and searches 30 miles ahead, so
+\* meets only happen on corridors well beyond 16 km: most patterns are long.
 Patterns == { << <<"M", 40>>, <<"M", 60>> >>,
               << <<"M", 50>>, <<"S", 25>>, <<"M", 50>> >>,
-              << <<"M", 40>>, <<"M", 40>>, <<"S", 30>>, <<"M", 60>> >>,
-              << <<"M", 40>>, <<"S", 25>>, <<"M", 90>>, <<"S", 40>>, <<"M", 40>> >> }
+              << <<"M", 200>>, <<"S", 30>>, <<"M", 300>> >>,
+              << <<"M", 150>>, <<"M", 100>>, <<"S", 30>>, <<"M", 200>> >>,
+              << <<"M", 200>>, <<"S", 25>>, <<"M", 350>>, <<"S", 40>>, <<"M", 200>> >> }
 Gaps == {0, 240, 1500}          \* tie, below the 8 min headway, well above it
 Cars == {20, 80}
 
